@@ -185,6 +185,8 @@ type LivePlan struct {
 	// SlowWriteReturnMs (forwarding topology): the front's first writes towards
 	// the client return this much later than the bytes leave.
 	SlowWriteReturnMs int `json:"slow_write_return_ms,omitempty"`
+	// CopyUp: the front forwards client -> backend with io.Copy(backend, conn).
+	CopyUp bool `json:"copy_up,omitempty"`
 	// NoCCS: the client does not use middlebox compatibility mode (RFC 8446,
 	// D.4: optional): its change_cipher_spec records never reach the wire.
 	NoCCS bool `json:"no_ccs,omitempty"`
@@ -281,6 +283,7 @@ type liveWorld struct {
 	hello  [](*tls.ClientHelloInfo)
 	// slowWrites counts connections whose front writes return late
 	slowWrites int
+	copyUps    int
 }
 
 func (lw *liveWorld) guard(o *connObs, where string, f func()) {
@@ -481,18 +484,37 @@ func (lw *liveWorld) runConn(n int, ccfg *tls.Config) *connObs {
 				rb = 32768
 			}
 			buf := make([]byte, rb)
-			for {
-				nr, err := conn.Read(buf)
-				if nr > 0 {
-					if _, werr := fb.Write(buf[:nr]); werr != nil {
+			if p.CopyUp {
+				// the forwarding loop most fronts have: io.Copy (which uses the
+				// source's WriteTo, should it have one)
+				wfailed := false
+				_, err := io.Copy(writerFunc(func(b []byte) (int, error) {
+					n, werr := fb.Write(b)
+					if werr != nil {
+						wfailed = true
+					}
+					return n, werr
+				}), conn)
+				if err != nil && !wfailed {
+					o.pumpReadErr = err
+				}
+				lw.mu.Lock()
+				lw.copyUps++
+				lw.mu.Unlock()
+			} else {
+				for {
+					nr, err := conn.Read(buf)
+					if nr > 0 {
+						if _, werr := fb.Write(buf[:nr]); werr != nil {
+							break
+						}
+					}
+					if err != nil {
+						if err != io.EOF {
+							o.pumpReadErr = err
+						}
 						break
 					}
-				}
-				if err != nil {
-					if err != io.EOF {
-						o.pumpReadErr = err
-					}
-					break
 				}
 			}
 			fb.CloseWrite()
@@ -697,6 +719,9 @@ func executeLive(t *testing.T, prop string, seed uint64, p *LivePlan) *core.Resu
 				}
 				if lw.slowWrites > 0 {
 					res.Probe("hrr_write_returns_late")
+				}
+				if lw.copyUps > 0 {
+					res.Probe("hrr_front_forwards_with_io_copy")
 				}
 			}
 			if o.clientState.CurveID == tls.X25519MLKEM768 {
@@ -967,3 +992,8 @@ func (lw *liveWorld) judgeBytes(prop string, n int, o *connObs, accepted bool) {
 		}
 	}
 }
+
+// writerFunc is a writer without ReadFrom.
+type writerFunc func([]byte) (int, error)
+
+func (f writerFunc) Write(b []byte) (int, error) { return f(b) }
